@@ -43,6 +43,10 @@ type Result struct {
 	Sample any                 `json:"s,omitempty"`
 	Inconc string              `json:"inc,omitempty"`
 	Evals  int                 `json:"e,omitempty"` // evaluations represented by this case (default 1)
+	// Restart asks for a fresh worker process after this case (e.g. the case
+	// left goroutines behind); the worker exits with status 77 after
+	// journalling the result and the supervisor carries on with the next case.
+	Restart bool `json:"restart,omitempty"`
 }
 
 // Violate appends a violation to the result.
@@ -111,6 +115,10 @@ func Serve(run func(phase string, i int) Result) {
 			b, _ = json.Marshal(Result{I: i, Viol: []Viol{{Key: "harness:marshal", What: err.Error()}}})
 		}
 		f.Write(append(append([]byte("R "), b...), '\n'))
+		if res.Restart && i+1 < *flagTo {
+			f.Close()
+			os.Exit(77)
+		}
 	}
 	f.Close()
 	os.Exit(0)
@@ -290,6 +298,11 @@ func Run(r *evidence.Run, o Opts) {
 							mu.Unlock()
 						}
 						break
+					}
+					if strings.Contains(d.ExitErr, "exit status 77") && !d.TimedOut && last >= started {
+						// the worker asked for a fresh process after case `last`
+						from = last + 1
+						continue
 					}
 					// the worker died on case `started` (journalled, no result)
 					victim := started
